@@ -203,8 +203,10 @@ class G:
             return self.pad()
         if c < 0.64 and depth > 0:
             return self.if_stmt(depth, in_sub, in_loop)
-        if c < 0.70 and depth > 0 and self.version >= 4:
+        if c < 0.67 and depth > 0 and self.version >= 4:
             return self.loop_stmt(depth, in_sub)
+        if c < 0.70 and depth > 0 and self.version >= 4:
+            return self.dowhile_stmt(depth, in_sub)
         if c < 0.84 and self.subs:
             self.features.add("callsub")
             # kf_free: never let a label follow a callsub directly (D3: return point that is a jump target)
@@ -244,6 +246,20 @@ class G:
             + body
             + [f"load {slot}", "int 1", "+", f"store {slot}", f"b {lo}", f"{dn}:"]
         )
+
+    def dowhile_stmt(self, depth, in_sub):
+        """do-while: the back edge targets the first block of the body, which may end in a callsub, an assert, a branch ..."""
+        r = self.r
+        self.features.add("dowhile")
+        lo = self.label("dw")
+        slot = r.randrange(14, 18)
+        first = []
+        if self.subs and r.random() < 0.6:
+            self.features.add("loop-head-callsub")
+            first = [f"callsub {r.choice(self.subs)}"] + (["int 1", "pop"] if self.kf_free else [])
+        body = first + self.stmts(r.randrange(0, 3), depth - 1, in_sub, True)
+        return (["int 0", f"store {slot}", f"{lo}:"] + body
+                + [f"load {slot}", "int 1", "+", f"store {slot}", f"load {slot}", f"int {r.randrange(1,4)}", "<", f"bnz {lo}"])
 
     def switch_stmt(self, depth, in_sub, in_loop):
         r = self.r
@@ -477,6 +493,12 @@ def adversarial_programs():
         "gtxn-other-index-check": P + "txn GroupIndex\nint 0\n==\nassert\ngtxn 1 RekeyTo\nglobal ZeroAddress\n==\nassert\nint 1\nreturn",
         "groupsize-with-absolute": P + "gtxn 1 Amount\nint 5\n==\nassert\nint 1\nreturn",
         "groupsize-checked": P + "global GroupSize\nint 2\n==\nassert\ngtxn 1 Amount\nint 5\n==\nassert\nint 1\nreturn",
+        "loop-head-callsub-callee-returns": P + "int 0\nstore 0\nl:\ncallsub s\nload 0\nint 1\n+\nstore 0\nload 0\nint 2\n<\nbnz l\nint 1\nreturn\ns:\ntxn Fee\nint 0\n==\nbz c\nint 1\nreturn\nc:\nretsub",
+        "loop-at-entry": "start:\nint 1\nbz start\nint 1\nreturn",
+        "loop-at-sub-entry": P + "callsub s\nint 1\nreturn\ns:\ntxn Fee\nint 1000\n<\nbz s\nretsub",
+        "goto-loop": P + "int 0\nstore 0\nb chk\nbody:\ntxn RekeyTo\nglobal ZeroAddress\n==\nassert\nload 0\nint 1\n+\nstore 0\nchk:\nload 0\nint 2\n<\nbnz body\nint 1\nreturn",
+        "nested-loops": P + "int 0\nstore 0\no:\nload 0\nint 2\n<\nbz od\nint 0\nstore 1\ni:\nload 1\nint 2\n<\nbz id\ntxn Fee\nint 1000\n<=\nassert\nload 1\nint 1\n+\nstore 1\nb i\nid:\nload 0\nint 1\n+\nstore 0\nb o\nod:\nint 1\nreturn",
+        "two-calls-same-block-seq": P + "callsub a\ncallsub a\ncallsub b\nint 1\nreturn\na:\ncallsub b\nretsub\nb:\nint 1\npop\nretsub",
         "frame-ops": P + "callsub f\nint 1\nreturn\nf:\nproto 0 0\nint 5\nframe_bury 0\nframe_dig 0\npop\nretsub",
     }
     return sorted(progs.items())
